@@ -490,6 +490,15 @@ fn doc_oracle(doc: &Doc, out: &str, auto: bool, cols: &[String], st: &mut Stream
         None => vec![],
     };
     let in_injected_defs = |idx: usize| inj_defs_idx.is_some_and(|i| idx > i && els[i + 1..=idx].iter().all(|o| o.depth > els[i].depth));
+    // the root keeps the classes the author gave it
+    if let Some(root) = els.first() {
+        let rc = classes_of(&root.el);
+        for c in &doc.root_classes {
+            if !rc.contains(c) {
+                return Some(("C20:root-svg-class".into(), format!("class {c} of the root <svg> is missing from the output root")));
+            }
+        }
+    }
     // used classes: every output element outside the injected defs, the root included
     let mut used: BTreeSet<String> = BTreeSet::new();
     let mut has_text = false;
@@ -570,13 +579,20 @@ fn doc_stream(rep: &mut Report, rng: &mut Rng, n: usize, root_class: bool) -> Re
     let (cols, _) = colours();
     let mut st = if root_class {
         Stream::new("oracle/doc-root-class", "oracle",
-            "documents whose ROOT <svg> carries a reserved class: same checks as oracle/doc-autostyles (the root is an output element that uses the class); non-trivial = every case")
+            "documents whose ROOT <svg> carries a reserved class (the first six: a class used ONLY on the root): same checks as oracle/doc-autostyles — the root is an output element, so its class must be kept and must get its rule / definition; non-trivial = every case")
     } else {
         Stream::new("oracle/doc-autostyles", "oracle",
             "generated documents (1..6 rect/circle/ellipse/line/polyline/text/path/g elements, 0..3 vocabulary / near-miss / junk classes each, text attributes, author <style> and <defs> before and after, 1 in 6 without a root <svg>) through transform_str with add_auto_styles on/off, 6 themes, backgrounds, fonts, local styles; output parsed with quick-xml: rule for class K (selector .K / text.K / line.K) present iff K is used by an output element (text family: iff also a <text> exists), no rule outside the vocabulary, each injected definition needed by a used class, every url(#id) of an injected rule/definition defined exactly once, author style/defs kept, nothing injected when off or without root; non-trivial = a root, auto-styles on and at least one reserved class")
     };
-    for _ in 0..n {
-        let doc = gen_doc(rng, &cols, root_class);
+    for i in 0..n {
+        let mut doc = gen_doc(rng, &cols, root_class);
+        if root_class && i < 6 {
+            // a reserved class used ONLY on the root <svg>
+            let c = ["d-softshadow", "d-fill-red", "d-grid-5", "d-arrow", "d-thick", "d-text-bold"][i];
+            let body = if c == "d-text-bold" { "<text xy=\"1 1\">t</text>" } else { "<rect wh=\"20 10\"/>" };
+            doc = Doc { text: format!("<svg class=\"{c}\">\n  {body}\n</svg>"), has_root: true, author_style: vec![], author_defs_ids: vec![], root_classes: vec![c.to_string()] };
+            st.tally("class-only-on-root");
+        }
         let mut cfg = default_cfg();
         let auto = root_class || !rng.chance(1, 5);
         cfg.add_auto_styles = auto;
